@@ -1,6 +1,6 @@
 """Per-property static text used in the evidence files (levels, assumptions, explanations)."""
 
-LEVELS = {"C11": "other", "C20": "other", "C01": "other", "C03": "other", "C05": "exploration", "C07": "other", "C13": "other", "C14": "exploration", "C15": "other", "C16": "other", "C18": "exploration"}  # property -> evidence level; default 'proof'
+LEVELS = {"C11": "other", "C20": "other", "C01": "other", "C03": "other", "C05": "exploration", "C07": "other", "C13": "other", "C14": "exploration", "C15": "other", "C16": "other", "C18": "other"}  # property -> evidence level; default 'proof'
 
 TRUSTED_COMMON = [
     "pyvc engine (this repository's own VC generator over Python's ast module): its model of Python semantics for the subset used",
@@ -17,6 +17,7 @@ ASSUMPTIONS_COMMON = [
 
 PROP_ASSUMPTIONS = {}
 EXPLAIN = {
+    "C18": "Mixed: optimize_partition_by (all cases) and partition_by_column for 0-3 symbolic triples are proved (coverage.obligations/discharged); longer lists are explored by the bounded monitor (coverage.bounded).",
     "C15": "Mixed: WellShifter and WellRotator are proved (coverage.obligations/discharged, incl. inverse lemmas); WellRandomizer is explored by the bounded monitor (coverage.bounded).",
     "C07": "Mixed: both transfer bodies are proved on 1-triple (quick) / 2-triple (thorough) symbolic shapes without splitting (coverage.obligations/discharged); longer lists, permutations, large-volume splitting and break records are explored by the bounded monitor (coverage.bounded).",
     "C16": "Mixed: syntactic relational obligations between the two transfer bodies, hierarchy and call-site obligations (backend 'ast') and the two refusing base methods (z3) are discharged deductively; operation programs on both devices are compared by the bounded differential monitor (coverage.bounded).",
